@@ -1173,7 +1173,9 @@ def worker(ctx):
         ctx.harness_error(f"time budget reached with {left} programs of shard {ctx.shard} unevaluated (inconclusive)")
 
     # minimise every new bucket over a grid of small operands of its cell (one program)
-    for b, (cell, rt) in sorted(new_buckets.items()):
+    for nb, (b, (cell, rt)) in enumerate(sorted(new_buckets.items())):
+        if nb >= 8:  # bound the extra builds when one root cause fans out into many operand classes
+            break
         if ctx.out_of_time(0.97) or ".result_type" in b or b.endswith((".invalid_hugr", ".compile_crash")):
             continue
         cols = [(LITPOOL[f][:6] if f in LIT else GRID[KIND[f]]) for f in cell["forms"]]
